@@ -1155,6 +1155,9 @@ class Gen:
             # the generated traversals mention only visitor methods (never one another)
             it.name = (("default_" + td["method"]) if td.get("default") else (td["name"] + ("::recurse_fold" if fold else "::recurse_visit")))  # none of these functions calls another (they call the visitor)
             it.body_text = mask(text)
+            if td.get("default"):
+                # (for the vacuity colouring: the default may call the generated traversal of its node type in method-call form)
+                it.body_text += " %s::%s " % (td["node"], "recurse_fold" if fold else "recurse_visit")
             for e in ens:
                 it.clauses["ensures"].append(e)
             for inv in re.findall(r"^\s+(verif_\w+ (?:is|<=|==)[^\n]*),$", text, re.M):
